@@ -330,6 +330,10 @@ func (it *Interp) Branch(c *smt.Term) bool {
 		return d.taken
 	}
 	it.jr.Branches++
+	if v, ok := it.decideByRanges(c); ok { // interval pre-solver (models_ranges.go): no solver call
+		it.take(c, dec{taken: v, forced: true})
+		return v
+	}
 	// cheap pass: constraints that only talk about the atoms of the condition (ranges, earlier decisions)
 	if it.quickUnsat(c) {
 		d := dec{taken: false, forced: true}
